@@ -210,6 +210,35 @@ Definition atom_keys (a : atom) : list N :=
   | ALet x t => term_keys t ++ [vkey x]
   end.
 
+(* function symbols applied in a term / atom / rule; [wf_prog_b]: all of them are declared
+   as functions (a hypothesis of the universal property of the chase) *)
+Fixpoint funcs_in (t : term) : list N :=
+  match t with
+  | App f args => f :: flat_map funcs_in args
+  | _ => []
+  end.
+
+Definition atom_funcs (a : atom) : list N :=
+  match a with
+  | APred _ args => flat_map funcs_in args
+  | AEq a b => funcs_in a ++ funcs_in b
+  | ADef t => funcs_in t
+  | ATy _ _ => []
+  | ALet _ t => funcs_in t
+  end.
+
+Definition stmt_atom (st : stmt) : atom := match st with If a => a | Then a => a end.
+Definition rule_funcs (r : rule) : list N := flat_map (fun st => atom_funcs (stmt_atom st)) r.
+
+Definition is_func (p : program) (f : N) : bool :=
+  match nth_error (sg_rels (pg_sig p)) (N.to_nat f) with
+  | Some d => rd_func d
+  | None => false
+  end.
+
+Definition wf_prog_b (p : program) : bool :=
+  forallb (fun r => forallb (is_func p) (rule_funcs r)) (pg_rules p).
+
 (* walk the statements; [envs] = all assignments satisfying the statements so far *)
 Fixpoint check_stmts (M : model) (ss : list stmt) (idx : N) (envs : list env) : option (N * env) :=
   match ss with
